@@ -46,9 +46,10 @@ func (m *Master) RacePass(what string) {
 	}
 	s := out.String()
 	reports := strings.Split(s, "WARNING: DATA RACE")
-	m.Tot.Extra["racepass_reports"] = int64(len(reports) - 1)
+	m.Tot.Extra["racepass_reports"] += int64(len(reports) - 1)
+	m.Tot.Extra["racepass_runs"]++
 	if strings.Contains(s, "RACEPASS-DONE") {
-		m.Tot.Extra["racepass_completed"] = 1
+		m.Tot.Extra["racepass_completed"]++
 	}
 	if n := strings.Count(s, "RACEPASS-ERROR-LOST"); n > 0 {
 		// an observed run in which a failure was not reported to the caller: a real execution, not a guess
